@@ -1033,7 +1033,7 @@ public:
       {
          clear(rhs.size());
 
-         if(rhs.size() > 0)
+         if(rhs.num() > 0)
          {
             SVSetBaseArray::operator=(rhs);
             set = rhs.set;
@@ -1069,7 +1069,7 @@ public:
       {
          clear(rhs.size());
 
-         if(rhs.size() > 0)
+         if(rhs.num() > 0)
             this->add(rhs);
       }
 
